@@ -1,11 +1,15 @@
 package pool
 
 import (
+	"context"
 	"fmt"
 	"net"
 
 	"github.com/vipnode/vipnode/v2/ethnode"
 	"github.com/vipnode/vipnode/v2/internal/verifapi"
+	"github.com/vipnode/vipnode/v2/internal/verifmodels/sigs"
+	"github.com/vipnode/vipnode/v2/jsonrpc2"
+	"github.com/vipnode/vipnode/v2/pool/store"
 )
 
 // verifHostBytes returns n symbolic bytes over the host alphabet [a-z0-9.:\[\]].
@@ -137,3 +141,61 @@ func VerifC19() {
 }
 
 var _ = fmt.Sprint
+
+// VerifC19Connect: the host branch of connect derives the default address
+// from the connection's remote address (symbolic bytes, bare or bracketed,
+// with a port): the stored URI carries the authenticated id and that host with port 30303.
+func VerifC19Connect() {
+	db := newVerifStore()
+	p := New(db, nil)
+	verifapi.SetNow(verifapi.Time("now"))
+	nodeID := verifapi.NodeID(1)
+	n := verifapi.Choose("srclen", verifapi.Param("maxsrc", 3)+1)
+	src := verifHostBytes("src", n)
+	bracketed := verifapi.Bool("bracketed")
+	if bracketed {
+		verifapi.Assume(!hasByte(src, '[') && !hasByte(src, ']'))
+	} else {
+		verifapi.Assume(!hasByte(src, '[') && !hasByte(src, ']') && !hasByte(src, ':'))
+	}
+	addr := src
+	if bracketed {
+		addr = "[" + src + "]"
+	}
+	addr += ":" + verifDigits("srcport", 1)
+	svc := &VerifHost{Name: "conn", Addr: addr}
+	override := ""
+	if verifapi.Bool("unspecifiedoverride") {
+		override = "enode://" + nodeID + "@[::]:30303"
+	}
+	req := ConnectRequest{NodeInfo: ethnode.UserAgent{Kind: ethnode.Geth, IsFullNode: true}, NodeURI: override}
+	nonce := VerifFreshNonce()
+	ctx := jsonrpc2.VerifCtxWithService(context.Background(), svc)
+	_, err := p.Connect(ctx, sigs.SignFor(nodeID, "vipnode_connect", nonce, req), nodeID, nonce, req)
+	verifapi.Reach("c19.connect")
+	if src == "" {
+		verifapi.Assert(err != nil, "c19.connect-undeterminable-address-refused")
+		return
+	}
+	if err != nil {
+		verifapi.Unreachable("c19.connect-default-address-accepted")
+		return
+	}
+	stored, gerr := db.GetNode(store.NodeID(nodeID))
+	if gerr != nil {
+		verifapi.Unreachable("c19.connect-node-stored")
+		return
+	}
+	parsed, perr := ethnode.ParseNodeURI(stored.URI)
+	if perr != nil {
+		verifapi.Assert(false, "c19.connect-advertised-uri-parses")
+		return
+	}
+	verifapi.Assert(parsed.ID() == nodeID, "c19.connect-advertised-under-authenticated-identity")
+	h, prt, serr := net.SplitHostPort(parsed.Host)
+	verifapi.Assert(serr == nil, "c19.connect-advertised-address-is-host-port")
+	if serr == nil {
+		verifapi.Assert(h == src, "c19.connect-advertised-host-is-source-address")
+		verifapi.Assert(prt == "30303", "c19.connect-advertised-port-30303")
+	}
+}
